@@ -116,7 +116,17 @@ pub fn generate(sink: &mut Sink, seed: u64, thorough: bool) {
                 }
             }
         }
-        prog.stmts.insert(0, Stmt::Ext("fx".into(), "urn:example:foreign".into()));
+        // the foreign namespace: mostly an unrelated URI, sometimes one that merely LOOKS like the
+        // E57 namespace (extends it, is a prefix of it, differs in case or by a trailing slash)
+        let fx_url = match rng.below(8) {
+            0 => "http://www.astm.org/COMMIT/E57/2010-e57-v1.0/extensions/acme",
+            1 => "http://www.astm.org/COMMIT/E57/2010-e57-v1.0/",
+            2 => "http://www.astm.org/COMMIT/E57/2010-e57-v1",
+            3 => "HTTP://WWW.ASTM.ORG/COMMIT/E57/2010-E57-V1.0",
+            4 => "http://www.astm.org/COMMIT/E57/2010-e57-v1.0#x",
+            _ => "urn:example:foreign",
+        };
+        prog.stmts.insert(0, Stmt::Ext("fx".into(), fx_url.into()));
         // baseline
         let dev = SimDev::new(vec![]);
         let base = execute(&prog, &dev);
